@@ -76,7 +76,12 @@ func newKeys() *Keys {
 	// consensus keys sorted by cons address as well, so cons-key id order is byte order too
 	var cons []cryptotypes.PrivKey
 	for i := 0; i < poolSize; i++ {
-		cons = append(cons, ed25519.GenPrivKeyFromSecret([]byte(fmt.Sprintf("verif-cons-%d", i))))
+		// two key types, as a chain whose consensus params allow both: a quarter of the pool is secp256k1
+		if i%4 == 3 {
+			cons = append(cons, secp256k1.GenPrivKeyFromSecret([]byte(fmt.Sprintf("verif-cons-%d", i))))
+		} else {
+			cons = append(cons, ed25519.GenPrivKeyFromSecret([]byte(fmt.Sprintf("verif-cons-%d", i))))
+		}
 	}
 	sort.Slice(cons, func(a, b int) bool {
 		return bytes.Compare(cons[a].PubKey().Address(), cons[b].PubKey().Address()) < 0
@@ -120,13 +125,18 @@ func (k *Keys) valAddrStr(id int) string {
 	}
 }
 
+// valID maps an operator address to its id by the address bytes, whatever the spelling (bech32 may be all upper case)
 func (k *Keys) valID(oper string) int {
+	bz, err := sdk.ValAddressFromBech32(oper)
+	if err != nil {
+		return -1
+	}
 	for i, id := range k.Pool {
-		if id.Val.String() == oper {
+		if bytes.Equal(id.Val, bz) {
 			return i
 		}
 	}
-	if oper == k.Unknown.String() {
+	if bytes.Equal(k.Unknown, bz) {
 		return unknownVal
 	}
 	return -1
@@ -269,8 +279,12 @@ func NewChain(keys *Keys, g Genesis) (*Chain, *abci.ResponseInitChain, error) {
 		return nil, nil, err
 	}
 	t0 := time.Unix(genesisUnix, 0).UTC()
+	consParams := *simtestutil.DefaultConsensusParams
+	valParams := *consParams.Validator
+	valParams.PubKeyTypes = []string{"ed25519", "secp256k1"}
+	consParams.Validator = &valParams
 	resp, err := app.InitChain(&abci.RequestInitChain{
-		ChainId: chainID, Time: t0, InitialHeight: 1, ConsensusParams: simtestutil.DefaultConsensusParams, AppStateBytes: stateBytes,
+		ChainId: chainID, Time: t0, InitialHeight: 1, ConsensusParams: &consParams, AppStateBytes: stateBytes,
 	})
 	if err != nil {
 		return nil, nil, fmt.Errorf("InitChain: %w", err)
